@@ -179,11 +179,13 @@ fn literal(kind: u8, v: i64) -> ScalarValue {
 }
 
 fn table_ref(rel: u8) -> Option<TableReference> {
-    match rel % 5 {
-        0 | 1 => None,
-        2 => Some(TableReference::bare("t0")),
-        3 => Some(TableReference::partial("sch", "T 1")),
-        _ => Some(TableReference::full("cat", "sch", "t.2")),
+    match rel % 16 {
+        0..=7 => None,
+        8..=11 => Some(TableReference::bare("t0")),
+        12..=13 => Some(TableReference::partial("sch", "tbl")),
+        14 => Some(TableReference::full("cat", "sch", "tbl")),
+        // needs quoting
+        _ => Some(TableReference::full("cat", "sch", "T.2")),
     }
 }
 
